@@ -47,9 +47,28 @@ def gen_tree_graph(rng: random.Random, n_funcs: int) -> list[tuple[str, str]]:
             else:
                 call = rng.choice([f"{child}({p})", f"{child}(1)", f"{child}(a={p})"])
             lines.append(call)
+            # the same callee once more under a different binding (a different call record: not a duplicate)
+            if rng.random() < 0.35 and len(ps) > 1:
+                q = ps[-1] if p != ps[-1] else ps[0]
+                if cps[-1] == "k":
+                    lines.append(f"{child}({p}, k={q}.other_kw)")
+                elif cps[-1] == "kw":
+                    lines.append(f"{child}({p}, extra={q}.other_kw)")
+                elif len(cps) == 2 and cps[1] == "b":
+                    lines.append(f"{child}({p}, b={q})")
+        if rng.random() < 0.3:
+            lines.append(f"zero_{nm}()")
         if not lines:
             lines = ["pass"]
         defs.append((nm, f"def {nm}({sig}):\n" + "\n".join("    " + l for l in lines) + "\n"))
+        if any(l == f"zero_{nm}()" for l in lines):
+            defs.append((f"zero_{nm}", f"def zero_{nm}():\n    GLOBAL_{nm}.touched = 1\n    return GLOBAL_{nm}.read_{nm}\n"))
+    if rng.random() < 0.4:
+        defs.append(("TBox", "class TBox:\n    def __init__(self, u, w=None):\n        self.held = u.boxed\n        self.w = w\n"))
+        owner = names[0]
+        ps, sig = sigs[owner]
+        tgt = rng.choice(["slot", f"{ps[0]}.slot", f"{ps[0]}.items[0]"])
+        defs.append(("mk_box", f"def mk_box({sig}):\n    {tgt} = TBox({ps[0]})\n    return 1\n"))
     rng.shuffle(defs)
     return defs
 
@@ -129,6 +148,12 @@ FIXED_GRAPHS = {
                      ("k", "def k(a, **kw):\n    kw.keys\n    a.ka\n")],
     "class_init": [("mk", "def mk(q):\n    t = Box(q.src)\n    return t\n"),
                    ("Box", "class Box:\n    def __init__(self, u):\n        self.held = u.boxed\n")],
+    "class_init_dotted_target": [("mk", "def mk(holder, q):\n    holder.pt = Box(q)\n    holder.items[0] = Box(q)\n"),
+                                 ("Box", "class Box:\n    def __init__(self, u):\n        self.x = u.boxed\n        self.y = 1\n")],
+    "same_callee_two_keyword_values": [("top", "def top(a, b, c):\n    put(a, k=b)\n    put(a, k=c)\n"),
+                                       ("put", "def put(x, k=None):\n    k.seen = 1\n    x.touched\n")],
+    "zero_arg_callees": [("reset", "def reset():\n    REG.ready = 1\n"), ("tag", "def tag(item):\n    item.seen = 1\n"),
+                         ("run", "def run(item):\n    reset()\n    tag(item)\n"), ("again", "def again(item):\n    reset()\n    tag(item)\n")],
 }
 
 
